@@ -507,7 +507,8 @@ class Executor:
         self.default_maxlen = default_maxlen
         self.max_paths = max_paths
         self.max_steps = max_steps
-        self.solver = SolverCache()
+        # per-query cap: 60 s in the quick tier, 300 s in thorough (a thorough run shares the machine with up to 16 worker processes)
+        self.solver = SolverCache(timeout_ms=300000 if os.environ.get('VERIF_TIER') == 'thorough' else 60000)
         self.models_used = set()
         self.fns_executed = set()
         self.fresh_hooks = {}
